@@ -136,7 +136,8 @@ class IkeSa(object):
     def log_debug(self, message):
         self.log_msg(logging.DEBUG, message)
 
-    def generate_ike_sa_key_material(self, ike_proposal, nonce_i, nonce_r, spi_i, spi_r, shared_secret, old_sk_d=None):
+    def generate_ike_sa_key_material(self, ike_proposal, nonce_i, nonce_r, spi_i, spi_r, shared_secret, old_sk_d=None,
+                                     old_prf=None):
         """ Generates IKE_SA key material based on the proposal and DH
         """
         prf = Prf(ike_proposal.get_transform(Transform.Type.PRF))
@@ -146,7 +147,8 @@ class IkeSa(object):
         if not old_sk_d:
             skeyseed = prf.prf(nonce_i + nonce_r, shared_secret)
         else:
-            skeyseed = prf.prf(old_sk_d, shared_secret + nonce_i + nonce_r)
+            # RFC 7296 2.18: the rekeying exchange belongs to the old IKE_SA, so it is the old IKE_SA's PRF that is used
+            skeyseed = (old_prf or prf).prf(old_sk_d, shared_secret + nonce_i + nonce_r)
 
         self.log_debug(f'Generated SKEYSEED: {skeyseed.hex()}')
 
@@ -457,7 +459,7 @@ class IkeSa(object):
                 return self._send_request(request)
         return None
 
-    def _process_ike_sa_negotiation_request(self, request, encrypted=False, old_sk_d=None):
+    def _process_ike_sa_negotiation_request(self, request, encrypted=False, old_sk_d=None, old_prf=None):
         """ Process a IKE_SA negotiation request (SA, Ni, KEi), and returns
             appropriate response payloads (SA, Nr, KEr) or raises exception
             on error.
@@ -499,7 +501,8 @@ class IkeSa(object):
                                                                 nonce_i=payload_nonce.nonce,
                                                                 nonce_r=response_payload_nonce.nonce,
                                                                 spi_i=self.peer_spi, spi_r=self.my_spi,
-                                                                shared_secret=dh.shared_secret, old_sk_d=old_sk_d)
+                                                                shared_secret=dh.shared_secret, old_sk_d=old_sk_d,
+                                                                old_prf=old_prf)
 
         return [response_payload_sa, response_payload_nonce, response_payload_ke]
 
@@ -649,7 +652,7 @@ class IkeSa(object):
 
         return self.request
 
-    def process_ike_sa_negotiation_response(self, response, nonce, encrypted=False, old_sk_d=None):
+    def process_ike_sa_negotiation_response(self, response, nonce, encrypted=False, old_sk_d=None, old_prf=None):
         """ Process a IKE_SA negotiation response (SA, Ni, KEi)
         """
         payload_sa = response.get_payload(Payload.Type.SA, encrypted)
@@ -675,7 +678,7 @@ class IkeSa(object):
             spi_i=self.my_spi,
             spi_r=self.peer_spi,
             shared_secret=self.dh.shared_secret,
-            old_sk_d=old_sk_d)
+            old_sk_d=old_sk_d, old_prf=old_prf)
 
     def abort_on_error_notifies(self, message, encrypted=False, ignore=None):
         for notification in message.get_payloads(Payload.Type.NOTIFY, encrypted=encrypted):
@@ -1124,7 +1127,8 @@ class IkeSa(object):
             else:
                 self.new_ike_sa = IkeSa(False, proposal.spi, self.configuration, self.my_addr, self.peer_addr)
                 response_payloads = self.new_ike_sa._process_ike_sa_negotiation_request(request, True,
-                                                                                        self.ike_sa_keyring.sk_d)
+                                                                                        self.ike_sa_keyring.sk_d,
+                                                                                        self.my_crypto.prf)
                 # take over the existing child sas (only once the negotiation has succeeded)
                 self.new_ike_sa.child_sas = self.child_sas
                 self.child_sas = []
@@ -1196,7 +1200,7 @@ class IkeSa(object):
                 # process the IKE_SA negotiation payloads
                 self.new_ike_sa.process_ike_sa_negotiation_response(
                     response, self.request.get_payload(Payload.Type.NONCE, True).nonce, encrypted=True,
-                    old_sk_d=self.ike_sa_keyring.sk_d)
+                    old_sk_d=self.ike_sa_keyring.sk_d, old_prf=self.my_crypto.prf)
                 self.new_ike_sa.child_sas = self.child_sas
                 self.child_sas = []
                 self.state = IkeSa.State.REKEYED
